@@ -536,6 +536,9 @@ func suiteConvert(R *runner, r *rng) {
 						}
 						return
 					}
+					if !nonneg {
+						return // outside the property's proviso (negative times): only "no panic" is checked
+					}
 					if werr != nil {
 						fail("writing the destination failed: "+werr.Error(), "convert-write-"+df)
 						return
@@ -543,9 +546,6 @@ func suiteConvert(R *runner, r *rng) {
 					back, rerr := astisub.OpenFile(dp)
 					if rerr != nil {
 						fail("re-reading the destination failed: "+rerr.Error(), "convert-reread-"+df)
-						return
-					}
-					if !nonneg {
 						return
 					}
 					t := tol
@@ -621,6 +621,27 @@ func suiteConvert(R *runner, r *rng) {
 				}
 			}
 		}
+	}
+	// extension dispatch against the model: invalid-extension or not, for reading and for writing
+	exts := []string{".srt", ".SRT", ".Srt", ".ssa", ".ass", ".ASS", ".stl", ".ts", ".TS", ".ttml", ".vtt", ".VtT", ".txt", "", ".srt.bak", ".", ".srtx", ".sr", ".tt", ".webvtt", ".vtt ", ".t s"}
+	for c := 0; c < 60; c++ {
+		name := r.pick("a", "file", "x.y", "UP", "é") + exts[r.intn(len(exts))]
+		if r.chance(1, 4) {
+			name = r.pick("d.srt", "sub.vtt", "D") + "/" + name
+		}
+		full := filepath.Join(dir, "disp", name)
+		os.MkdirAll(filepath.Dir(full), 0o755)
+		os.WriteFile(full, []byte("1\n00:00:01,000 --> 00:00:02,000\nx\n"), 0o644)
+		_, rerr := astisub.OpenFile(full)
+		werr := subsFromCues(plainCues(r, 1)).Write(full)
+		bit := func(err error) int {
+			if errors.Is(err, astisub.ErrInvalidExtension) {
+				return 1
+			}
+			return 0
+		}
+		R.add(&obs{Suite: "dispatch", Group: "convert.dispatch", Input: (&enc{}).str(full).String(), Impl: (&enc{}).n(bit(rerr)).n(bit(werr)).String(), NT: true, Human: map[string]interface{}{"name": name}})
+		os.Remove(full)
 	}
 	// unsupported extensions
 	s := subsFromCues(plainCues(r, 2))
